@@ -31,7 +31,7 @@ func gbLongJoin(L, operands int) string {
 	return "join(" + strings.Join(p, ",") + ")"
 }
 
-const gbWords = "putative membrane transport protein involved in the uptake of branched chain amino acids under nitrogen limiting conditions as shown by genetic complementation"
+const gbWords = "putative  membrane transport protein involved in the uptake of branched chain amino acids under nitrogen limiting conditions as shown by genetic complementation"
 
 // gbShape builds feature number idx of the given shape for a sequence of length L.
 func gbShape(shape, idx, L int) gbFeat {
@@ -101,12 +101,18 @@ func gbGenRecord(c *mc.Ctx, o gbGenOpts, salt int, tags *[]string) gbRec {
 	if L < 100 {
 		tag(fmt.Sprintf("length-digits=%d", len(fmt.Sprint(L))))
 	}
-	switch c.Dev("locus-name", 3) {
+	switch c.Dev("locus-name", 6) {
 	case 1:
 		r.locusName = "ab"
 		tag("locus-name-2-letters")
 	case 2:
 		r.locusName = "my_locus_name_x2"
+	case 3:
+		r.locusName = "cdna_lib7" // lower-case names may spell other LOCUS fields
+	case 4:
+		r.locusName = "pre_mrna_3"
+	case 5:
+		r.locusName = "linear_syn_bp"
 	}
 	r.molType = []string{"DNA", "mRNA", "tRNA", "rRNA"}[c.Dev("molecule", 4)]
 	r.circular = c.Dev("topology", 2) == 1
